@@ -12,6 +12,11 @@ CHECKS = {
          "Every belt mechanism is called on enumerated boundary structure (all CTS lengths, wide-block lengths 32..208, header lengths straddling 16, counters wrapping 32/64/128 bits, alteration classes of authenticated unwrapping, FMT alphabets x word lengths, the FMT block-count table by breakpoints) and each result is recomputed by TLC from the standard's definition; not a proof over all keys/data: data octets are seeded samples.",
          "Trusted: TLC, the transcription of the standard in spec/ref (anchored by the appendix vectors in the same run), the C driver. ASan/UBSan build with exact-size buffers.",
          "DESIGN.md section 4, C01"),
+ "C07": ("exploration",
+         "resource monitor spec/mon/Regions.tla (TLC trace validation of region / abort events) over the enumerated replay suites executed in exact-size ASan+UBSan+assert builds for 64- and 32-bit words; sensor = AddressSanitizer/UBSan/utilAssert (thorough: + valgrind memcheck)",
+         "Memory safety is not decided by a TLA+ model: the specification family contributes the systematic behaviour space (all lengths / levels / alphabets / fragmentings / overlaps that the functional specs enumerate) and the region monitor; the verdict comes from the sanitizers on executions where every state, stack, blob and caller buffer has exactly the documented size.",
+         "Trusted: clang ASan/UBSan (alignment check off by design of the library), the guarded exact-blob hook, the drivers allocating exact sizes. Only behaviours in checks/suites.py are exercised.",
+         "DESIGN.md section 4, C07 and section 7"),
  "C10": ("model_checking",
          "TLC exhaustive model checking of the buffering state machine spec/sm/StepApi.tla per discipline; every explored fragment script replayed on the real Start/Step/Get bundles (Get/Verify and state relocation at scripted positions); TLC judges each executed script against the one-shot reference semantics (Trace_Belt!StepsOk)",
          "Within the bounds (fragments, total length, marks) over the boundary alphabet {0,1,blk-1,blk,blk+1,2blk-1,2blk,2blk+1} every fragment script is enumerated by TLC and executed on the real code (quick: a seeded subset of the larger families); the value oracle is the one-shot specification.",
